@@ -18,7 +18,7 @@ Definition classify (raw : text) : lclass :=
     if c0 =? 59 then LSkip else
     match strip raw with
     | [] => LSkip
-    | c :: _ as line =>
+    | (c :: _) as line =>
       if c =? 91 then LSection line
       else let '(pa, _, va) := partition_on 61 line in LParam (strip pa) (strip va)
     end
